@@ -48,6 +48,7 @@ def field_terms(fr, name):
 
 
 def run_item(item):
+    item.cross_check = True      # thorough tier: discharged obligations are re-decided by cvc5
     pm = load_repo()
     name = item.name
     fr = frame()
